@@ -31,7 +31,12 @@ RULE = ("case = (namespace tree built through the public API, all candidate dott
         "with a twin built at once; (b) one or two Program objects serving a sequence of command lines (scoped, plain, "
         "depth-limited listings in every format, task runs), every run compared with a fresh Program; (c) a "
         "sub-collection object mounted under a second root, both roots queried, then tasks / aliases / defaults / "
-        "sub-collections added to already-mounted nested collections; a history case = (tree, history kind, history seed)")
+        "sub-collections added to already-mounted nested collections; (d) trees obtained by Collection.from_module (explicit "
+        "ns / namespace, name and auto_dash_names given or not; module of plain tasks) and by copy.deepcopy, queried, "
+        "extended at any depth, queried again, the ORIGINAL checked afterwards; (e) ONE Collection object bound under two "
+        "names (same parent or two parents, depth 1-3; in the model two subtrees): all listing formats plus `--list "
+        "<namespace>` and `--list-depth` must show every accepted task once per binding path; a history case = (tree, "
+        "history kind, history seed)")
 TRUSTED = ["Lean 4.33 kernel", "axioms propext/Classical.choice/Quot.sound only",
            "harness/props/c10.py: tree builder, serialisation of the real object, canonicalisation, listing parsers",
            "model Invoke/Model/Collection.lean hand-written, tied to invoke.collection / Program._make_pairs by the "
@@ -863,7 +868,9 @@ def oracle_listings(spec, root, infos):
             by_holder.setdefault(id(i["real_holder"]), []).append(i)
 
         def walk(c, doc, where):
-            want = sorted((i["key"], i["local_aliases"]) for i in by_holder.get(id(c), []))
+            # (an object bound under two names gives two bindings per task but ONE json node per binding path)
+            want = sorted(set((i["key"], tuple(i["local_aliases"])) for i in by_holder.get(id(c), [])))
+            want = [(k, list(a)) for k, a in want]
             got = sorted((t["name"], sorted(t["aliases"])) for t in doc.get("tasks", []))
             if got != want:
                 fails.append(("listing-json", "json node %s lists tasks %r, expected %r" % (where or "<root>", got, want), []))
@@ -1250,6 +1257,26 @@ def node_at(spec, root, path):
     return node, real
 
 
+def late_addition(hrng, tnode, treal, b):
+    """an already-mounted collection gains a task (with aliases, maybe as default) or a sub-collection; spec follows"""
+    k = len(tnode["tasks"]) + len(tnode["colls"])
+    if hrng.random() < 0.7:
+        ts = {"fn": "late_task%d" % k, "tname": None, "own": ["late_alias%d" % k] if hrng.random() < 0.6 else [],
+              "bind": None, "extra": ["x_late%d" % k] if hrng.random() < 0.4 else [], "default": None}
+        if hrng.random() < 0.3 and default_target_local(tnode) is None:
+            ts["default"] = "add"
+        t, vid = make_task(b, ts)
+        ts["_vid"] = vid
+        treal.add_task(t, aliases=tuple(ts["extra"]) or None, default=True if ts["default"] else None)
+        tnode["tasks"].append(ts)
+    else:
+        sub = {"name": "late_sub%d" % k, "ad": tnode.get("ad"), "tasks": [{"fn": "lt", "tname": None, "own": [], "bind": None,
+               "extra": [], "default": "add"}], "colls": [], "cfg": {}, "via": "methods"}
+        ks = {"node": sub, "bind": None, "default": False}
+        treal.add_collection(build(sub, b, is_root=False))
+        tnode["colls"].append(ks)
+
+
 def history_shared(spec, hseed):
     """a tree built at once and queried; one of its sub-collections is ALSO mounted under a second root; then an
     already-mounted nested collection gains a task / an alias / a sub-collection; both roots must satisfy the property"""
@@ -1287,22 +1314,7 @@ def history_shared(spec, hseed):
     for _ in range(hrng.randint(1, 3)):
         tnode, tpath = hrng.choice(inner)
         treal = node_at(spec, root, tpath)[1]
-        k = len(tnode["tasks"]) + len(tnode["colls"])
-        if hrng.random() < 0.7:
-            ts = {"fn": "late_task%d" % k, "tname": None, "own": ["late_alias%d" % k] if hrng.random() < 0.6 else [],
-                  "bind": None, "extra": ["x_late%d" % k] if hrng.random() < 0.4 else [], "default": None}
-            if hrng.random() < 0.3 and default_target_local(tnode) is None:
-                ts["default"] = "add"
-            t, vid = make_task(b, ts)
-            ts["_vid"] = vid
-            treal.add_task(t, aliases=tuple(ts["extra"]) or None, default=True if ts["default"] else None)
-            tnode["tasks"].append(ts)
-        else:
-            sub = {"name": "late_sub%d" % k, "ad": tnode.get("ad"), "tasks": [{"fn": "lt", "tname": None, "own": [], "bind": None,
-                   "extra": [], "default": "add"}], "colls": [], "cfg": {}, "via": "methods"}
-            ks = {"node": sub, "bind": None, "default": False}
-            treal.add_collection(build(sub, b, is_root=False))
-            tnode["colls"].append(ks)
+        late_addition(hrng, tnode, treal, b)
         poke(hrng, root, objs, voc)
     fails = []
     names = candidates(root, hrng, 60)
@@ -1386,15 +1398,160 @@ def history_program_reuse(spec, hseed):
     return fails, {"runs": len(done)}
 
 
-HISTORIES = {"incremental": history_incremental, "shared": history_shared, "program-reuse": history_program_reuse}
+def scoped_and_depth(spec, root, infos):
+    """`--list <namespace>` and `--list-depth N` (flat): every task binding below the namespace / above the depth exactly
+    once, under its name relative to the namespace (leading dot) resp. its primary name"""
+    fails = []
+    root_ad = eff_ad(spec)
+    for node, pk in coll_paths(spec):
+        if not pk:
+            continue
+        arg = ".".join(k for _, k in pk)
+        out, err, _, exc = quiet_run(root, ["--list", arg])
+        want = sorted("." + ".".join(norm(root_ad, r) for r, _ in (i["path_keys"][len(pk):] + [(i["raw"], None)]))
+                      for i in infos if [k for _, k in i["path_keys"][:len(pk)]] == [k for _, k in pk] and len(i["path_keys"]) >= len(pk))
+        got = sorted(n for n, _ in parse_flat(out))
+        if want and got != want:
+            fails.append(("listing-scoped", "`--list %s` shows %r, the namespace holds %r (%s)" % (arg, got, want, (err or exc or "")[:60]), []))
+    for depth in (1, 2):
+        out, err, _, exc = quiet_run(root, ["--list", "--list-depth", str(depth)])
+        want = sorted(i["primary"] for i in infos if len(i["path_keys"]) < depth)
+        got = sorted(n for n, _ in parse_flat(out))
+        if got != want:
+            fails.append(("listing-depth", "`--list --list-depth %d` shows tasks %r, expected %r" % (depth, got, want), []))
+    return fails
+
+
+def history_aliased_object(spec, hseed):
+    """ONE Collection object bound under two names: in the same parent or under two different parents, at depth 1-3.
+    In the model (and for the oracle) that is two subtrees; every listing format must show every CLI-accepted task
+    once per binding path"""
+    import random
+    hrng = random.Random(hseed)
+    spec = copy.deepcopy(spec)
+    b = Built()
+    try:
+        root = build(spec, b)
+    except ValueError:
+        return [], {"refused": 1}
+    inner = [(n, p) for n, p in spec_nodes(spec) if p]
+    if not inner:
+        return [], {"no_inner": 1}
+    voc = sorted(vocabulary(root)) + ["nope"]
+    nshare = hrng.choice([1, 1, 2])
+    done = 0
+    for j in range(nshare):
+        snode, spath = hrng.choice(inner)
+        # any parent that is not the shared collection itself nor inside it (no cycles), depth of the new binding <= 3
+        parents = [(n, p) for n, p in spec_nodes(spec) if p[:len(spath)] != spath and len(p) <= 2]
+        if not parents:
+            continue
+        pnode, ppath = hrng.choice(parents)
+        sreal = node_at(spec, root, spath)[1]
+        preal = node_at(spec, root, ppath)[1]
+        bind = hrng.choice(["second_%d", "twin-%d", "again%d"]) % j
+        try:
+            preal.add_collection(sreal, name=bind)
+        except ValueError:
+            continue
+        pnode["colls"].append({"node": snode, "bind": bind, "default": False})
+        done += 1
+        if hrng.random() < 0.5:
+            poke(hrng, root, [root, sreal, preal], voc)
+    if not done or depth_of(spec) > 4:
+        return [], {"no_share": 1}
+    if hrng.random() < 0.5:  # the shared object gains a task afterwards: visible through both paths
+        snode, spath = hrng.choice(inner)
+        late_addition(hrng, snode, node_at(spec, root, spath)[1], b)
+    names = candidates(root, hrng, 60)
+    fails = list(oracle_c10(spec, root, b, names))
+    if well_formed(spec):
+        try:
+            infos = expected_bindings(spec, root, b)
+            fails += scoped_and_depth(spec, root, infos)
+        except SettingsClash:
+            pass
+    return fails, {"bindings": done}
+
+
+def history_cloned(spec, hseed):
+    """trees obtained by Collection.from_module (explicit ns / namespace, or a module of plain tasks) and by
+    copy.deepcopy: queried, extended at any depth, queried again; the ORIGINAL must be unaffected"""
+    import random
+    from invoke import Collection
+    hrng = random.Random(hseed)
+    spec = copy.deepcopy(spec)
+    b = Built()
+    try:
+        orig = build(spec, b)
+    except ValueError:
+        return [], {"refused": 1}
+    if not has_tasks(spec):
+        return [], {"empty": 1}
+    ospec = copy.deepcopy(spec)  # the original's spec stays as it is
+    how = hrng.choice(["ns", "ns", "namespace", "deepcopy", "deepcopy", "implicit"])
+    dspec = spec
+    if how in ("ns", "namespace"):
+        mod = types.ModuleType("pkg.loaded_mod")
+        setattr(mod, how, orig)
+        mad = hrng.choice([None, eff_ad(spec), not eff_ad(spec)])
+        clone = Collection.from_module(mod, name=hrng.choice([None, "given"]), auto_dash_names=mad)
+        dspec["ad"] = True if mad is None else mad
+    elif how == "deepcopy":
+        clone = copy.deepcopy(orig)
+    else:
+        mod = types.ModuleType("plain_mod")
+        dspec = {"name": "plain_mod", "ad": None, "tasks": [], "colls": [], "cfg": {}, "via": "methods"}
+        for i, ts in enumerate(t for n, _ in spec_nodes(spec) for t in n["tasks"]):
+            if i >= 3 or any(x["fn"] == ts["fn"] for x in dspec["tasks"]):
+                continue
+            ts2 = {"fn": ts["fn"], "tname": ts["tname"], "own": list(ts["own"]), "bind": None, "extra": [], "default": None}
+            t, vid = make_task(b, ts2)
+            ts2["_vid"] = vid
+            setattr(mod, "v%d" % i, t)
+            dspec["tasks"].append(ts2)
+        clone = Collection.from_module(mod)
+        # give it a sub-collection so that there is a nested level to extend later
+        sub = {"name": "grown", "ad": None, "tasks": [{"fn": "g", "tname": None, "own": [], "bind": None, "extra": [], "default": None}],
+               "colls": [], "cfg": {}, "via": "methods"}
+        clone.add_collection(build(sub, b, is_root=False))
+        dspec["colls"].append({"node": sub, "bind": None, "default": False})
+    if not well_formed(dspec):
+        return [], {"clash": 1}
+    nodes = list(spec_nodes(dspec))
+    objs = [node_at(dspec, clone, p)[1] for _, p in nodes]
+    voc = sorted(vocabulary(clone)) + ["nope"]
+    for _ in range(hrng.randint(1, 5)):  # the clone is looked at
+        poke(hrng, clone, objs, voc)
+    bool(clone)
+    for _ in range(hrng.randint(1, 3)):  # and extended at any depth (deeper levels preferred)
+        deep = [(n, p) for n, p in nodes if p]
+        tnode, tpath = hrng.choice(deep if deep and hrng.random() < 0.8 else nodes)
+        late_addition(hrng, tnode, node_at(dspec, clone, tpath)[1], b)
+        poke(hrng, clone, objs, voc)
+    fails = []
+    for kind, why, inv in oracle_c10(dspec, clone, b, candidates(clone, hrng, 60)):
+        fails.append((kind, "[tree obtained by %s] %s" % (how, why), inv))
+    for kind, why, inv in oracle_c10(ospec, orig, b, candidates(orig, hrng, 40)):
+        fails.append((kind, "[the ORIGINAL after its %s copy was extended] %s" % (how, why), inv))
+    return fails, {how: 1}
+
+
+HISTORIES = {"incremental": history_incremental, "shared": history_shared, "program-reuse": history_program_reuse,
+             "cloned": history_cloned, "aliased-object": history_aliased_object}
 
 
 def run_histories(ctx, out):
     rng = ctx.rng
-    plan = [("incremental", ctx.n(110, 1500)), ("shared", ctx.n(60, 800)), ("program-reuse", ctx.n(50, 700))]
+    plan = [("incremental", ctx.n(90, 1500)), ("shared", ctx.n(45, 800)), ("program-reuse", ctx.n(40, 700)),
+            ("cloned", ctx.n(50, 800)), ("aliased-object", ctx.n(45, 800))]
     for kind, count in plan:
         for _ in range(count):
             spec = gen_tree(rng)
+            for _retry in range(4):  # these histories need a nested level
+                if spec["colls"] or kind in ("program-reuse", "incremental"):
+                    break
+                spec = gen_tree(rng)
             if kind != "program-reuse":
                 spec = methodsify(spec)
             spec = strip(spec)
